@@ -64,6 +64,16 @@ class Checker:
             return self.refuted(rule, func, construct, "; ".join(problems[:4]))
         return self.proved(rule, func, construct, detail_ok, nontrivial)
 
+    def verdict3(self, rule, func, what, st, model, how, nontrivial=True):
+        """three-way verdict from a prove() result: proved / refutable (with its concrete witness) / anything else is UNKNOWN"""
+        if st == "proved":
+            self.proved(rule, func, what, how, nontrivial=nontrivial)
+        elif st == "refutable":
+            det = ", ".join(f"{k}={v}" for k, v in list(model.items())[:6]) if isinstance(model, dict) else str(model)
+            self.refuted(rule, func, what, f"counter-example: {{{det}}}", witness=model)
+        else:
+            self.unknown(rule, func, what, f"{st}: {str(model)[:200]}")
+
     def floor(self, what, count, minimum):
         self.floors.append((what, count, minimum))
         self.analysed[what] = count
